@@ -192,6 +192,91 @@ pub fn parse_json(text: &str) -> String {
     show_list(&feats, |f| f.clone())
 }
 
+
+/// Plain-terminal report (`writer::Basic`, coloring never) parsed back into block records:
+/// `PE i | F f | R ind r | S ind scen retry | T ind bg idx res loc | H ind before payload loc | L m`.
+pub fn parse_basic(text: &str, payloads: &[String]) -> String {
+    let loc_feat = |s: &str| -> String {
+        Regex::new(r"feat/f(\d+)\.feature:\d+:\d+|f-(\d+):\d+:\d+").unwrap().captures(s)
+            .and_then(|c| c.get(1).or(c.get(2)).map(|m| m.as_str().to_owned())).unwrap_or_else(|| "?".to_owned())
+    };
+    let pay = |s: &str| payloads.iter().position(|p| p == s).map_or_else(|| format!("?{}", hex(s)), |i| i.to_string());
+    let lines: Vec<&str> = text.split('\n').collect();
+    let mut recs: Vec<String> = vec![];
+    let step_re = Regex::new(r"^( *)(✔|\?|✘)(>| ) Given (bg|step) (\d+)$").unwrap();
+    let hook_re = Regex::new(r"^( *)✘  Scenario's (Before|After) hook failed (.*)$").unwrap();
+    let scen_re = Regex::new(r"^( *)Scenario: s-(\d+)").unwrap();
+    let retry_re = Regex::new(r" \| Retry attempt: (\d+)/(\d+)$").unwrap();
+    let rule_re = Regex::new(r"^( *)Rule: r-(\d+)$").unwrap();
+    let log_re = Regex::new(r"^log (\d+)").unwrap();
+    let mut i = 0;
+    while i < lines.len() {
+        let mut l = lines[i];
+        i += 1;
+        // `Scenario::Log` is written raw (no newline of its own in the harness' messages)
+        while let Some(c) = log_re.captures(l) {
+            recs.push(format!("L {}", &c[1]));
+            l = &l[c[0].len()..];
+        }
+        if l.is_empty() { continue; }
+        if let Some(rest) = l.strip_prefix("Failed to parse: ") {
+            recs.push(format!("PE {}", num_after(rest, "p/").map_or_else(|| "?".to_owned(), |n| n.to_string())));
+        } else if let Some(rest) = l.strip_prefix("Feature: f-") {
+            recs.push(format!("F {}", rest.chars().take_while(char::is_ascii_digit).collect::<String>()));
+        } else if let Some(c) = rule_re.captures(l) {
+            recs.push(format!("R {} {}", c[1].len(), &c[2]));
+        } else if let Some(c) = scen_re.captures(l) {
+            let retry = retry_re.captures(l).map_or_else(|| "-".to_owned(), |r| format!("{} {}", &r[1], &r[2]));
+            recs.push(format!("S {} {} {retry}", c[1].len(), &c[2]));
+        } else if let Some(c) = step_re.captures(l) {
+            let (ind, bg, idx) = (c[1].len(), b(&c[3] == ">"), c[5].to_owned());
+            if (&c[4] == "bg") != (&c[3] == ">") { recs.push(format!("?bg-marker {}", hex(l))); continue; }
+            let cont = |i: usize, pre: &str| -> Option<String> {
+                lines.get(i).and_then(|x| x.trim_start().strip_prefix(pre).map(str::to_owned))
+            };
+            match &c[2] {
+                "✔" => recs.push(format!("T {ind} {bg} {idx} ok -")),
+                "?" => {
+                    // (a skipped BACKGROUND step is worded "Background step failed:" by the crate; the `?` marker is the status)
+                    let Some(loc) = cont(i, if &c[3] == ">" { "Background step failed: " } else { "Step skipped: " }) else { recs.push(format!("?skip-without-location {}", hex(l))); continue; };
+                    i += 1;
+                    recs.push(format!("T {ind} {bg} {idx} skip {}", loc_feat(&loc)));
+                }
+                _ => {
+                    if cont(i, "Step failed:").is_none() { recs.push(format!("?fail-without-header {}", hex(l))); continue; }
+                    i += 1;
+                    let Some(loc) = cont(i, "Defined: ") else { recs.push(format!("?fail-without-location {}", hex(l))); continue; };
+                    i += 1;
+                    if cont(i, "Matched: ").is_some() { i += 1; }
+                    let res = if let Some(p) = cont(i, "Step panicked. Captured output: ") { i += 1; format!("fail pan {}", pay(&p)) }
+                        else if lines.get(i).is_some_and(|x| x.trim_start() == "Step panicked. Captured output:") { i += 1; format!("fail pan {}", pay("")) }
+                        else if cont(i, "Step match is ambiguous").is_some() { i += 1; "fail amb".to_owned() }
+                        else if cont(i, "Step doesn't match any function").is_some() { i += 1; "fail nf".to_owned() }
+                        else { format!("fail ?{}", hex(lines.get(i).copied().unwrap_or(""))) };
+                    recs.push(format!("T {ind} {bg} {idx} {res} {}", loc_feat(&loc)));
+                }
+            }
+        } else if let Some(c) = hook_re.captures(l) {
+            let ind = c[1].len();
+            let before = b(&c[2] == "Before");
+            let loc = loc_feat(&c[3]);
+            if !lines.get(i).is_some_and(|x| x.trim_start().starts_with("Captured output:")) { recs.push(format!("?hook-without-output {}", hex(l))); continue; }
+            i += 1;
+            // the payload line (absent for an empty payload): indented by ind + 3
+            let is_block = |x: &str| x.is_empty() || step_re.is_match(x) || hook_re.is_match(x) || scen_re.is_match(x) || rule_re.is_match(x)
+                || x.starts_with("Feature: ") || x.starts_with("Failed to parse: ") || log_re.is_match(x);
+            let p = match lines.get(i) {
+                Some(x) if !is_block(x) => { i += 1; x.trim_start().to_owned() }
+                _ => String::new(),
+            };
+            recs.push(format!("H {ind} {before} {} {loc}", pay(&p)));
+        } else {
+            recs.push(format!("?line {}", hex(l)));
+        }
+    }
+    show_list(&recs, |r| r.clone())
+}
+
 /// names with characters that need escaping in JSON / XML (well-formedness is exercised; the ids the
 /// parse-back needs stay recognisable)
 fn decorate(specs: &mut [FeatSpec], rng: &mut Rng) {
@@ -210,6 +295,15 @@ pub fn gen_report(rng: &mut Rng, idx: usize) -> Case {
         specs[0].path = None;
     }
     decorate(&mut specs, rng);
+    // two DIFFERENT features extracted from one source document: same path, different names
+    let mut alias: Vec<(usize, usize)> = vec![];
+    if idx != 0 && specs.len() >= 2 && rng.chance(1, 5) {
+        let (i, j) = (0, rng.range(1, specs.len() - 1));
+        if specs[i].path.is_some() && specs[j].path.is_some() {
+            specs[j].path = specs[i].path.clone();
+            alias.push((specs[j].id, specs[i].id));
+        }
+    }
     let cat = Rc::new(Cat::new(&specs));
     let cut = rng_cut(rng);
     let evs = gen_canonical_stream(rng, &cat, cut);
@@ -231,13 +325,22 @@ pub fn gen_report(rng: &mut Rng, idx: usize) -> Case {
     let jr = std::panic::catch_unwind(std::panic::AssertUnwindSafe(|| run(&mut |e| block_on(ju.handle_event(cat.realize(e), &ju_cli)))));
     crate::fam_attempt::HOOK_QUIET.with(|q| q.set(false));
 
+    let s4 = Sink::default();
+    let mut ba = writer::Basic::raw(s4.clone(), writer::Coloring::Never, 0);
+    let ba_cli = writer::basic::Cli { verbose: 0, color: writer::Coloring::Never };
+    run(&mut |e| block_on(Writer::<PW>::handle_event(&mut ba, cat.realize(e), &ba_cli)));
+    let ba_s = parse_basic(&s4.text(), &cat.payloads);
+
     let (lt_s, ju_s, js_s) = (
         parse_libtest(&s1.text()),
         if jr.is_err() { "!panic".to_owned() } else { parse_junit(&s3.text()) },
         parse_json(&s2.text()),
     );
-    let mut imp = format!("LT {lt_s} ; JU {ju_s} ; JS {js_s}");
-    let mut req = format!("report.run {} {}", show_list(&nopath, |n| n.to_string()), show_list(&evs, show_aev));
+    let mut imp = format!("LT {lt_s} ; JU {ju_s} ; JS {js_s} ; BA {ba_s}");
+    let mut req = format!(
+        "report.run {} {} {}",
+        show_list(&nopath, |n| n.to_string()), show_list(&alias, |(a, b)| format!("{a} {b}")), show_list(&evs, show_aev),
+    );
     if !imp.contains('!') {
         req.push_str(&format!(
             "\nmon.c14 {} {} {lt_s} {} {js_s}",
@@ -246,7 +349,7 @@ pub fn gen_report(rng: &mut Rng, idx: usize) -> Case {
         ));
         imp.push_str("\nok");
     }
-    let class = format!("{}{}", if nopath.is_empty() { "paths" } else { "nopath" }, if evs.iter().any(|e| matches!(e, AEv::Scen(_, Some((c, _)), _) if *c > 0)) { "/retried" } else { "" });
+    let class = format!("{}{}{}", if nopath.is_empty() { "paths" } else { "nopath" }, if alias.is_empty() { "" } else { "/shared-path" }, if evs.iter().any(|e| matches!(e, AEv::Scen(_, Some((c, _)), _) if *c > 0)) { "/retried" } else { "" });
     Case { req, imp, class, nontrivial: evs.len() > 6 }
 }
 
